@@ -80,7 +80,8 @@ func (m *settleMon) Observe(h *Hand, t *Trans) *vlib.Violation       { return ni
 
 func (m *settleMon) End(h *Hand, gs *pf.GameState) *vlib.Violation {
 	if gs.Result == nil {
-		return nil // C06
+		// a closed hand without a settlement pays nobody
+		return vlib.V("C02", "engine/no-result", "the hand is closed (%d players still in) and carries no settlement result: nobody has been paid", aliveCount(gs))
 	}
 	c := h.Cfg
 	table := combination.PowerRankings(gs.Meta.CombinationPowers)
